@@ -854,6 +854,14 @@ func configure(g *gen) {
 		"HTMLString", "Stream", "JSON", "JSONBytes", "XML", "JSONP"} {
 		hspec(n)
 	}
+	// `Back`: a redirect to the request's Referer (a parameter), status 302 unless one is given
+	add(FnSpec{Recv: "Context", Func: "Back", Lean: "RC.Back", Mutates: true,
+		Extra: []string{"(referer : Bytes)", "(rerr : GoRt.RKind → Bool)", "(cerr : Bool)"}, Types: rTypes,
+		Exts: append([]Ext{
+			{Callee: "basefn.FirstOr", Value: "((%1).headD %2)", T: tInt},
+			{Callee: "$.Req.Referer", Value: "referer", T: tStr},
+			{Callee: "$.Redirect", Stmts: []string{"$ ← Gen.RC.Redirect $ %1 [%2] rerr cerr"}, MayPanic: true},
+		}, rExts...)})
 	// `Render`: the router's template renderer writes the view into a NEW buffer (parameter `view`: its output and whether
 	// it failed); only a view that rendered completely is sent, with c.HTML
 	add(FnSpec{Recv: "Context", Func: "Render", Lean: "RC.Render", Mutates: true,
